@@ -1,5 +1,4 @@
 //! C02: Viterbi optimality of the lattice search.
-use crate::c01::world_for;
 use crate::common::*;
 use crate::dict::*;
 use crate::world::*;
@@ -25,31 +24,34 @@ struct N {
 }
 
 thread_local! { static LEXCANDS: std::cell::RefCell<Vec<(usize, usize, u32)>> = std::cell::RefCell::new(vec![]); }
+thread_local! { static WARM_FAILED: std::cell::Cell<bool> = std::cell::Cell::new(false); }
+thread_local! { static TABLES: std::cell::RefCell<(Vec<u8>, Vec<usize>, Vec<usize>, Vec<bool>)> = std::cell::RefCell::new((vec![], vec![], vec![], vec![])); }
 
 /// whether the warm-up result is collected (deterministic in the text; both ways occur)
 fn rng_bit(t: &str) -> bool { t.len() % 2 == 0 }
 
 pub fn run(run: &mut Run) {
-    run.rule = "random worlds without path-rewrite plugins (random lexicon incl. homographs, overlapping words, negative and \
-i16-extreme costs, random connection matrix, user dictionaries, every OOV provider mix) x random texts x history (new tokenizer, or one whose lattice held 1-4 longer/shorter texts before); the real lattice is dumped \
-through the verif hook before (complete previous state: all allocated rows, size, eos) and after the text; the model executes reset on the previous state and inserts the candidates a NEW tokenizer finds; non-trivial = at least 2 alternative complete paths (some row has >= 2 connected candidates); distinct by line".into();
+    run.rule = "random worlds without path-rewrite plugins (gen_world_c02: random lexicon incl. prefix families, non-indexed rows, directed homographs with the same surface and RIGHT id and another LEFT id in both cost orders, exact duplicate rows, negative and \
+i16-extreme word costs; connection matrix square / more left ids / more right ids, i16 extremes; 0-2 InhibitConnection plugins with 0-5 pairs incl. duplicates and the sentence-start/-end id; 0, 1, 2 or 14 user dictionaries with homographs of system words and rows whose cost is estimated at load; every OOV provider mix; input-text plugins) \
+x random texts of 1-4-byte characters x history (new tokenizer, or one whose lattice held 1-4 longer/shorter texts before, some of them ending with an error); the real lattice is dumped \
+through the verif hook before (complete previous state: all allocated rows, size, eos) and after the text; the model is given the normalised text with its index tables, the CSV rows of every dictionary, the matrix TEXT, the inhibit pairs and the OOV nodes, and executes build_lattice itself (reset on the previous state, look-up, can_bow filter, word parameters, inserts, connect_eos, path); non-trivial = at least 2 alternative complete paths (some row has >= 2 connected candidates); distinct by line".into();
     let n = run.opts.count;
-    let mut cur_world: Option<(usize, Result<World, String>)> = None;
+    let mut cur_world: Option<(usize, Result<C2World, String>)> = None;
     for idx in 0..n {
         if !run.wants(idx) { continue; }
         let widx = idx / CASES_PER_WORLD;
         if cur_world.as_ref().map(|w| w.0) != Some(widx) {
             cur_world = None;
-            let mut o = WorldOpts::default();
-            o.path_rewrite = false;
-            o.extreme = widx % 3 == 1;
-            o.always_fallback = widx % 4 != 3;
-            cur_world = Some((widx, world_for(run.opts.seed, &run.prop.clone(), widx, &o)));
+            let mut wr = Rng::for_case(run.opts.seed ^ 0x5151_5151, widx);
+            let made = gen_world_c02(&mut wr, &format!("{}-w{}", run.prop, widx), widx);
+            if let Ok(cw) = &made { for k in &cw.shape { run.bump(&format!("world:{}", k)); } }
+            cur_world = Some((widx, made));
         }
-        let w = match &cur_world.as_ref().unwrap().1 {
+        let cw = match &cur_world.as_ref().unwrap().1 {
             Ok(w) => w,
             Err(e) => { run.bump(&format!("world-error:{}", e.chars().take(50).collect::<String>())); continue; }
         };
+        let w = &cw.w;
         let mut rng = Rng::for_case(run.opts.seed, idx);
         let text = gen_text(&mut rng, w, 10);
         let dic = &w.dic;
@@ -62,12 +64,15 @@ through the verif hook before (complete previous state: all allocated rows, size
             }
         }
         run.bump(&format!("history:{}-earlier-texts", warm.len()));
+        WARM_FAILED.with(|c| c.set(false));
         let res = catch(|| {
             let mut tok = StatefulTokenizer::new(dic, Mode::C);
             let mut wl = MorphemeList::empty(dic);
             for wt in &warm {
                 tok.reset().push_str(wt);
-                if tok.do_tokenize().is_ok() && rng_bit(wt) { let _ = wl.collect_results(&mut tok); }
+                let wr = tok.do_tokenize();
+                if wr.is_err() { WARM_FAILED.with(|c| c.set(true)); }
+                if wr.is_ok() && rng_bit(wt) { let _ = wl.collect_results(&mut tok); }
             }
             // the complete state of the lattice BEFORE this text (all allocated rows, also those past `size`)
             let prev = {
@@ -97,6 +102,7 @@ through the verif hook before (complete previous state: all allocated rows, size
                 }
             }
             LEXCANDS.with(|c| *c.borrow_mut() = lexcands);
+            TABLES.with(|c| *c.borrow_mut() = (tabs.modified.as_bytes().to_vec(), tabs.mod_c2b.clone(), tabs.mod_b2c.clone(), tabs.mod_bow.clone()));
             let outcome = match &r { Ok(()) => "ok".to_string(), Err(e) => err_class(e) };
             let mut morph_costs = vec![];
             if r.is_ok() && nchars > 0 {
@@ -125,6 +131,8 @@ through the verif hook before (complete previous state: all allocated rows, size
             Ok(x) => x,
         };
         run.bump(&format!("outcome:{}", outcome));
+        if WARM_FAILED.with(|c| c.get()) { run.bump("history:an-earlier-text-ended-with-an-error"); }
+        { let mx = text.chars().map(|c| c.len_utf8()).max().unwrap_or(0); run.bump(&format!("text:widest-character-{}-bytes", mx)); }
         if nchars == 0 { run.bump("empty-normalised-text"); continue; }
         if outcome != "ok" && outcome != "Disconnect" { continue; }
         // the candidates of THIS text, independent of the history: the lattice of a new tokenizer
@@ -155,8 +163,12 @@ through the verif hook before (complete previous state: all allocated rows, size
         // the connection costs come from the matrix TEXT the dictionary was compiled from (no cost-editing
         // plugin is configured in these worlds), not from the code under test
         let (nl, nr) = (w.matrix.nl, w.matrix.nr);
-        let mut cells = vec![];
-        for b in 0..nr { for a in 0..nl { cells.push(w.matrix.cost(a, b) as i64); } }
+        // `text_cells`: the cells of the matrix TEXT; `cells`: the same after the configured inhibit pairs were written into
+        // them (pair (a, b): right id a of the left word, left id b of the right word -> 32767), applied HERE, not read back
+        let mut text_cells = vec![];
+        for b in 0..nr { for a in 0..nl { text_cells.push(w.matrix.cost(a, b) as i64); } }
+        let mut cells = text_cells.clone();
+        for &(a, b) in &cw.inh { cells[b * nl + a] = 32767; }
         let conn = |a: usize, b: usize| -> i64 { cells[b * nl + a] };
         let full = outcome == "ok" || eos.is_some();
         let show_total = |t: i32| if t == i32::MAX { "x".to_string() } else { t.to_string() };
@@ -174,10 +186,36 @@ through the verif hook before (complete previous state: all allocated rows, size
         let pi = rows3(prows.iter().map(|row| row.iter().map(|x| format!("{}:{}", x.7, x.8)).collect::<Vec<_>>().join(";")).collect());
         run.bump(&format!("previous-state:{}", if prows.is_empty() { "no-rows".to_string() } else if *psize > nchars + 1 { "larger".to_string() } else if *psize < nchars + 1 { "smaller".to_string() } else { "same-size".to_string() }));
         if prows.len() > nchars + 1 { run.bump("previous-state:more-rows-allocated-than-needed"); }
+        // ---- what the MODEL is given: the text with its index tables, the dictionaries as their CSV rows (key bytes and the
+        // three parameter columns, system first), the nodes the OOV providers pushed (C13's subject), the matrix TEXT and the
+        // inhibit pairs; it does the look-up, the can_bow filter, get_word_param, ch_idx and every insert itself
+        let (tbytes, c2b, b2c, bow) = TABLES.with(|c| c.borrow().clone());
+        let mut dict_rows: Vec<Vec<(Vec<u8>, i64, i64, i64)>> = vec![];
+        let mut estimated = 0;
+        for (d, rows) in std::iter::once(&w.lex.rows).chain(w.users.iter()).enumerate() {
+            let mut v = vec![];
+            for (i, r) in rows.iter().enumerate() {
+                let mut c = r.cost as i64;
+                if d > 0 && r.cost == -32768 {
+                    // a user row stored with i16::MIN is re-estimated when the dictionary is loaded (Lexicon::update_cost, C12):
+                    // its cost is read back, its connection ids are not
+                    c = dic.lexicon().get_word_param(WordId::new(d as u8, i as u32)).2 as i64;
+                    estimated += 1;
+                }
+                v.push((r.surface.as_bytes().to_vec(), r.left as i64, r.right as i64, c));
+            }
+            dict_rows.push(v);
+        }
+        if estimated > 0 { run.bump("world-has-user-rows-with-estimated-cost"); }
+        let is_oov = |wid: u32| (wid >> 28) == 15;
+        let oov_nodes: Vec<&N> = cand.iter().filter(|x| is_oov(x.wid)).collect();
         let payload = format!(
-            "full={} ok={} len={} conn={}:{}:{} nodes={} ps={} po={} pe={} pf={} pi={}",
-            if full { 1 } else { 0 }, if outcome == "ok" { 1 } else { 0 }, nchars, nl, nr, join(cells.iter(), ","),
-            cand.iter().map(|x| format!("{}:{}:{}:{}:{}", x.b, x.e, x.l, x.r, x.c)).collect::<Vec<_>>().join(";"),
+            "ok={} len={} conn={}:{}:{} inh={} txt={} c2b={} b2c={} bow={} dic={} oov={} ps={} po={} pe={} pf={} pi={}",
+            if outcome == "ok" { 1 } else { 0 }, nchars, nl, nr, join(text_cells.iter(), ","),
+            cw.inh.iter().map(|p| format!("{}:{}", p.0, p.1)).collect::<Vec<_>>().join(";"),
+            hex(&tbytes), join(c2b.iter(), ","), join(b2c.iter(), ","), bow.iter().map(|&b| if b { '1' } else { '0' }).collect::<String>(),
+            dict_rows.iter().map(|d| d.iter().map(|r| format!("{}:{}:{}:{}", hex(&r.0), r.1, r.2, r.3)).collect::<Vec<_>>().join(";")).collect::<Vec<_>>().join("|"),
+            oov_nodes.iter().map(|x| format!("{}:{}:{}:{}:{}", x.b, x.e, x.l, x.r, x.c)).collect::<Vec<_>>().join(";"),
             psize, peos.map_or("x".to_string(), |e| format!("{}:{}:{}", e.0, e.1, e.2)), pe, pf, pi
         );
         // chosen path through the back-pointers of the implementation
@@ -203,19 +241,22 @@ through the verif hook before (complete previous state: all allocated rows, size
         // the state after this text: lengths of ALL allocated rows, the valid rows with totals and back-pointers
         let lens_s = lens.iter().map(|l| format!("{}:{}:{}", l.0, l.1, l.2)).collect::<Vec<_>>().join(",");
         let rows_s = rows.iter().take(size).map(|row| row.iter().map(|x| format!("{}:{}:{}:{}:{}:{}:{}:{}", x.0, x.1, x.2, x.3, x.4, show_total(x.6), x.7, x.8)).collect::<Vec<_>>().join(";")).collect::<Vec<_>>().join("/");
-        let head = format!("ok size={} lens={} rows={}", size, lens_s, rows_s);
-        let ans = if full {
-            // the node list of the returned path pins the tie rule (first minimum in row order) and the stored totals
-            match eos {
-                // `mc`: what the REAL fill_top_path + Lattice::node + resolve_best_path delivered (mode C, no path rewriting):
-                // the cumulative cost of every morpheme, against the model's walk over the stored back-pointers
-                Some(e) => format!("{} eos={}:{}:{} path={} nodes={} mc={}", head, e.0, e.1, e.2, path_cost.map_or("x".to_string(), |c| c.to_string()),
-                    path_nodes.iter().map(|x| format!("{}:{}:{}:{}:{}:{}", x.b, x.e, x.l, x.r, x.c, show_total(x.total))).collect::<Vec<_>>().join(";"),
-                    if outcome == "ok" { morph_costs.iter().map(|m| show_total(m.0)).collect::<Vec<_>>().join(",") } else { "x".to_string() }),
-                None => format!("{} eos=x path=x nodes=x mc=x", head),
-            }
-        } else {
-            head
+        // the dictionary words of the lattice per begin position, by end and row index: `o:wid.e,...`
+        let mut lex_s: Vec<String> = vec![];
+        for o in 0..nchars {
+            let mut here: Vec<&N> = nodes.iter().filter(|x| x.b == o && !is_oov(x.wid)).collect();
+            here.sort_by_key(|x| (x.e, x.row_idx));
+            if !here.is_empty() { lex_s.push(format!("{}:{}", o, here.iter().map(|x| format!("{}.{}", x.wid, x.e)).collect::<Vec<_>>().join(","))); }
+        }
+        let head = format!("{} size={} lens={} rows={} lex={}", if outcome == "ok" { "ok" } else { "Disconnect" }, size, lens_s, rows_s, lex_s.join(";"));
+        let ans = match eos {
+            // the node list of the returned path pins the tie rule (first minimum in row order) and the stored totals;
+            // `mc`: what the REAL fill_top_path + Lattice::node + resolve_best_path delivered (mode C, no path rewriting):
+            // the cumulative cost of every morpheme, against the model's walk over the stored back-pointers
+            Some(e) => format!("{} eos={}:{}:{} path={} nodes={} mc={}", head, e.0, e.1, e.2, path_cost.map_or("x".to_string(), |c| c.to_string()),
+                path_nodes.iter().map(|x| format!("{}:{}:{}:{}:{}:{}", x.b, x.e, x.l, x.r, x.c, show_total(x.total))).collect::<Vec<_>>().join(";"),
+                if outcome == "ok" { morph_costs.iter().map(|m| show_total(m.0)).collect::<Vec<_>>().join(",") } else { "x".to_string() }),
+            None => format!("{} eos=x path=x nodes=x mc=x", head),
         };
         // ---- independent oracle: DP over the dumped candidates + brute force on small lattices ----
         let mut best: Vec<Option<i64>> = vec![None; nodes.len()];
@@ -248,7 +289,7 @@ through the verif hook before (complete previous state: all allocated rows, size
         let multi = (0..=nchars).any(|e| nodes.iter().enumerate().filter(|(i, x)| x.e == e && best[*i].is_some()).count() >= 2);
         run.bump(&format!("candidates:{}", (nodes.len() / 5 * 5).min(60)));
         if multi { run.bump("rows-with-alternatives"); }
-        run.case(idx, "lattice", &payload, &ans, multi && alternatives >= 1);
+        run.case(idx, "build", &payload, &ans, multi && alternatives >= 1);
         let mut fail: Option<(String, String)> = None;
         // the lattice that is searched is the lattice of THIS text: row 0 starts with the sentence-start entry, the three
         // row vectors agree in length, and the valid rows hold exactly the candidates a new tokenizer finds
@@ -317,6 +358,72 @@ through the verif hook before (complete previous state: all allocated rows, size
                 }
             }
         }
+        // the same with candidates taken from the dictionary SOURCES (the CSV rows of the system and user dictionaries), by a
+        // scan of our own over the normalised text - neither LexiconSet::lookup nor get_word_param nor the lattice rows are
+        // consulted for the dictionary words; an end inside the text must be a permissible word start (mod_bow of the buffer)
+        if fail.is_none() && full {
+            let mut all: Vec<(usize, usize, usize, usize, i64)> = vec![];
+            for nd in nodes.iter() { if is_oov(nd.wid) { all.push((nd.b, nd.e, nd.l, nd.r, nd.c)); } }
+            let mut ncsv = 0u64;
+            let mut homo_pairs = 0u64;
+            for cb in 0..nchars {
+                let bo = c2b[cb];
+                let at = all.len();
+                for rows in dict_rows.iter() {
+                    for r in rows.iter() {
+                        if r.1 < 0 || r.0.is_empty() || !tbytes[bo..].starts_with(&r.0) { continue; }
+                        let eb = bo + r.0.len();
+                        if eb < tbytes.len() && !bow[eb] { continue; }
+                        all.push((cb, b2c[eb], r.1 as usize, r.2 as usize, r.3));
+                        ncsv += 1;
+                    }
+                }
+                // homographs at this position: same span and right id, different left ids
+                for i in at..all.len() { for j in at..i { if all[i].1 == all[j].1 && all[i].3 == all[j].3 && all[i].2 != all[j].2 { homo_pairs += 1; } } }
+            }
+            run.bump_by("csv-candidates", ncsv);
+            if homo_pairs > 0 { run.bump("texts-with-homographs:same-span-same-right-other-left"); }
+            if cells.iter().any(|&c| c == 32767) && all.iter().any(|x| x.4 == 32767 || x.4 <= -32767) { run.bump("texts-with-extreme-word-cost-and-inhibited-or-32767-cell"); }
+            let mut bestl: Vec<Option<i64>> = vec![None; all.len()];
+            let mut ord: Vec<usize> = (0..all.len()).collect();
+            ord.sort_by_key(|&i| (all[i].0, all[i].1));
+            for &i in &ord {
+                let (b, _e, l, _r, c) = all[i];
+                let mut m: Option<i64> = if b == 0 { Some(conn(0, l) + c) } else { None };
+                for &j in &ord { if all[j].1 == b { if let Some(t) = bestl[j] { let v = t + conn(all[j].3, l) + c; if m.map_or(true, |x| v < x) { m = Some(v); } } } }
+                bestl[i] = m;
+            }
+            let mut csv_eos: Option<i64> = None;
+            for (i, x) in all.iter().enumerate() { if x.1 == nchars { if let Some(t) = bestl[i] { let v = t + conn(x.3, 0); if csv_eos.map_or(true, |y| v < y) { csv_eos = Some(v); } } } }
+            if let (Some(e), Some(d)) = (eos, csv_eos) {
+                if d < e.2 as i64 {
+                    fail = Some(("csv-candidates".into(), format!("final path cost {} but a sequence of words of the dictionary SOURCES (own scan of the CSV rows) + OOV candidates costs {}", e.2, d)));
+                }
+            }
+            // every dictionary word of the returned path is a candidate by the sources: an indexed row whose surface stands at
+            // that position of the normalised text, ending at a permissible word start, with the row's parameters
+            if fail.is_none() {
+                for nd in &path_nodes {
+                    if !is_oov(nd.wid) && !all.contains(&(nd.b, nd.e, nd.l, nd.r, nd.c)) {
+                        fail = Some(("not-a-candidate".into(), format!("the returned path contains the dictionary word {}..{} (l={},r={},c={},id={}) which the dictionary sources do not offer at that position (surface / permissible end / parameters)", nd.b, nd.e, nd.l, nd.r, nd.c, nd.wid)));
+                        break;
+                    }
+                }
+            }
+            // the returned path takes a word although an EARLIER candidate of the same span and right id is not dearer
+            // (legitimate when the left ids differ: the incoming connection decides)
+            for nd in &path_nodes {
+                if nodes.iter().any(|o| o.b == nd.b && o.e == nd.e && o.r == nd.r && o.l != nd.l && o.c <= nd.c && o.row_idx < nd.row_idx) { run.bump("path-takes-later-dearer-homograph"); break; }
+            }
+            if !cw.inh.is_empty() {
+                let mut prev_r = 0usize;
+                let mut over = false;
+                for nd in &path_nodes { if cw.inh.contains(&(prev_r, nd.l)) { over = true; } prev_r = nd.r; }
+                if cw.inh.contains(&(prev_r, 0)) { over = true; }
+                if over { run.bump("path-crosses-inhibited-connection"); }
+                if text_cells != cells { run.bump("texts-on-edited-matrix"); }
+            }
+        }
         // brute force for small lattices
         if fail.is_none() && full && nodes.len() <= 14 {
             fn rec(nodes: &[N], pos: usize, prev_r: usize, acc: i64, len: usize, conn: &dyn Fn(usize, usize) -> i64, best: &mut Option<i64>) {
@@ -365,4 +472,168 @@ through the verif hook before (complete previous state: all allocated rows, size
             run.fail(idx, &format!("c02:{}", k), &format!("{} | text={:?} earlier texts on the same tokenizer={:?} world={}", what, text, warm, w.desc.join(" ")));
         }
     }
+}
+
+/// a world of C02: `World` + what the connection-cost plugins were told + the shape counters
+pub struct C2World {
+    pub w: World,
+    /// `inhibitPair`s of all configured InhibitConnectionPlugins, in order: (right id of the left word, left id of the right word)
+    pub inh: Vec<(usize, usize)>,
+    pub shape: Vec<String>,
+}
+
+/// The worlds of C02 (third round).  On top of what `gen_world` varies (lexicon with prefix families, homographs, non-indexed
+/// rows; matrix square or not; every OOV provider mix; input-text plugins; user dictionaries):
+/// * directed homograph rows: same surface and same RIGHT id as an existing row, a different LEFT id, cheaper or dearer than
+///   it (both cost orders in row order), in the system dictionary and in user dictionaries (user words are looked up first);
+/// * 0, 1, 2 or 14 user dictionaries (15 lexicons is the maximum); user rows with cost -32768 (re-estimated at load);
+/// * 0-2 InhibitConnectionPlugins (empty list, duplicates, pairs with id 0 = the sentence-start/-end connection);
+/// * costs at the i16 limits in words AND matrix together with inhibited cells.
+/// No path-rewrite plugin (the property speaks about the path before rewriting).
+pub fn gen_world_c02(rng: &mut Rng, tag: &str, widx: usize) -> Result<C2World, String> {
+    let wd = Workdir::new(tag);
+    let mut shape: Vec<String> = vec![];
+    let n = rng.range(2, 6);
+    let extreme = widx % 3 == 1;
+    let always_fallback = widx % 4 != 3;
+    // every third world has a matrix that is not square, in both orientations; all ids stay below BOTH dimensions
+    let (xl, xr) = match widx % 6 { 2 => (1 + rng.below(3), 0), 5 => (0, 1 + rng.below(3)), _ => (0, 0) };
+    let matrix = Matrix::random(rng, n + xl, n + xr, extreme);
+    shape.push(format!("matrix:{}", if xl > 0 { "more-left" } else if xr > 0 { "more-right" } else { "square" }));
+    let lsize = rng.range(8, 24);
+    let mut lex = gen_lexicon(rng, n, lsize, extreme, true);
+    for (k, s) in ["1", "2", "一", "十"].iter().enumerate() {
+        if !lex.rows.iter().any(|r| r.surface == *s) { lex.rows.push(Row::simple(s, (k % n) as i32, ((k + 1) % n) as i32, 700 + 37 * k as i32, NUMERAL)); }
+    }
+    // directed homographs (appended: row numbers referenced by split declarations stay valid)
+    let nh = rng.range(1, 4);
+    for _ in 0..nh {
+        let base = { let idxs: Vec<usize> = (0..lex.rows.len()).filter(|&i| lex.rows[i].indexed()).collect(); lex.rows[*rng.pick(&idxs)].clone() };
+        let l2 = if n > 1 { (base.left as usize + 1 + rng.below(n - 1)) % n } else { 0 };
+        let dearer = rng.chance(1, 2);
+        let c2 = if dearer { (base.cost + 1 + rng.below(900) as i32).min(32767) } else { (base.cost - rng.below(900) as i32).max(-32767) };
+        if rng.chance(1, 6) {
+            // an exact DUPLICATE of the row (same surface, ids and cost): two candidates that tie everywhere
+            lex.rows.push(Row::simple(&base.surface, base.left, base.right, base.cost, base.pos));
+            shape.push("system-row:exact-duplicate".into());
+        }
+        lex.rows.push(Row::simple(&base.surface, l2 as i32, base.right, c2, base.pos));
+        shape.push(format!("system-homograph:same-right-other-left:{}", if c2 > base.cost { "dearer-later" } else if c2 < base.cost { "cheaper-later" } else { "equal-cost" }));
+    }
+    let csv = csv_of(&lex.rows, &lex.pos);
+    let system = build_system(csv.as_bytes(), matrix.text().as_bytes())?;
+    let mut desc = vec![];
+    // input-text plugins
+    let mut input: Vec<String> = vec![];
+    let mut input_kinds = vec![];
+    {
+        let mut kinds = vec![];
+        if rng.chance(3, 4) { kinds.push("default"); }
+        if rng.chance(1, 2) { kinds.push("psm"); }
+        if rng.chance(1, 2) { kinds.push("yomigana"); }
+        for k in &kinds {
+            input.push(match *k {
+                "default" => r#"{"class":"com.worksap.nlp.sudachi.DefaultInputTextPlugin","rewriteDef":"rewrite.def"}"#.to_string(),
+                "psm" => format!(r#"{{"class":"com.worksap.nlp.sudachi.ProlongedSoundMarkPlugin","prolongedSoundMarks":["ー","〜","～"],"replacementSymbol":"{}"}}"#, if n % 4 == 3 { "" } else { "ー" }),
+                _ => format!(r#"{{"class":"com.worksap.nlp.sudachi.IgnoreYomiganaPlugin","leftBrackets":["(","（","《"],"rightBrackets":[")","）","》"],"maxYomiganaLength":{}}}"#, rng.range(1, 4)),
+            });
+        }
+        input_kinds = kinds;
+    }
+    desc.push(format!("input:{}", input_kinds.join("+")));
+    // OOV providers
+    let mut oov: Vec<String> = vec![];
+    let mut oov_kinds = vec![];
+    if rng.chance(1, 2) {
+        wd.write("unk_gen.def", &unk_def(rng, n));
+        oov.push(r#"{"class":"com.worksap.nlp.sudachi.MeCabOovPlugin","charDef":"char_full.def","unkDef":"unk_gen.def"}"#.to_string());
+        oov_kinds.push("mecab");
+    }
+    if rng.chance(1, 3) {
+        let re = *rng.pick(&["[0-9a-z]+", "[ア-ン]+", "[a-z0-9]{2,}", "あ+"]);
+        oov.push(format!(
+            r#"{{"class":"com.worksap.nlp.sudachi.RegexOovProvider","regex":"{}","leftId":{},"rightId":{},"cost":{},"oovPOS":{},"maxLength":{},"boundaries":"{}"}}"#,
+            re, rng.below(n), rng.below(n), rng.below(5000), OOV_POS_JSON, rng.range(1, 8), if rng.chance(1, 2) { "strict" } else { "relaxed" }
+        ));
+        oov_kinds.push("regex");
+    }
+    let mut has_fallback = false;
+    if always_fallback || oov.is_empty() || rng.chance(4, 5) {
+        let c = if extreme && rng.chance(1, 3) { *rng.pick(&[32767i64, -32768, 0]) } else { rng.below(12000) as i64 };
+        oov.push(simple_oov_json(rng.below(n) as i64, rng.below(n) as i64, c));
+        oov_kinds.push("simple");
+        has_fallback = true;
+        if !always_fallback && rng.chance(1, 6) && oov.len() > 1 {
+            let x = oov.pop().unwrap();
+            oov.insert(0, x);
+            oov_kinds.rotate_right(1);
+            has_fallback = false;
+        }
+    }
+    desc.push(format!("oov:{}", oov_kinds.join("+")));
+    // connection-cost plugins
+    let mut inh: Vec<(usize, usize)> = vec![];
+    let mut conn: Vec<String> = vec![];
+    let nplug = match widx % 4 { 0 => 0, 1 => 1, 2 => rng.range(1, 2), _ => rng.below(3) };
+    for _ in 0..nplug {
+        let k = match rng.below(5) { 0 => 0, 1 => 1, _ => rng.range(1, 4) };
+        let mut pairs: Vec<(usize, usize)> = vec![];
+        for _ in 0..k {
+            // (right id of the left word, left id of the right word); one in four involves id 0 (sentence start / end)
+            let a = if rng.chance(1, 4) { 0 } else { rng.below(matrix.nl) };
+            let b = if rng.chance(1, 4) { 0 } else { rng.below(matrix.nr) };
+            pairs.push((a, b));
+            if rng.chance(1, 5) { pairs.push((a, b)); }
+        }
+        if pairs.iter().any(|p| p.0 == 0 || p.1 == 0) { shape.push("inhibit:sentence-start-or-end".into()); }
+        conn.push(format!(r#"{{"class":"com.worksap.nlp.sudachi.InhibitConnectionPlugin","inhibitPair":[{}]}}"#, pairs.iter().map(|p| format!("[{},{}]", p.0, p.1)).collect::<Vec<_>>().join(",")));
+        shape.push(format!("inhibit-plugin:{}-pairs", pairs.len().min(5)));
+        inh.extend(pairs);
+    }
+    shape.push(format!("inhibit-plugins:{}", nplug));
+    desc.push(format!("inhibit:{:?}", inh));
+    let cfg = config_json_cd(&wd, "char_full.def", &input, &oov, &[], &conn);
+    // user dictionaries
+    let nusers = if widx % 40 == 13 { 14 } else { match widx % 5 { 0 => 0, 1 => 1, _ => rng.below(3) } };
+    let mut users = vec![];
+    let mut user_pos = vec![];
+    let mut user_bins = vec![];
+    if nusers > 0 {
+        let base = load(&cfg, system.clone(), vec![])?;
+        for _u in 0..nusers {
+            let pos = default_pos();
+            let k = rng.range(1, 5);
+            let pool: Vec<char> = (0..4).map(|_| *rng.pick(WORD_CHARS)).collect();
+            let mut rows = vec![];
+            for _ in 0..k {
+                let r = match rng.below(4) {
+                    0 | 1 => {
+                        // homograph of a system word: same right id, another left id, cheaper or dearer
+                        let idxs: Vec<usize> = (0..lex.rows.len()).filter(|&i| lex.rows[i].indexed()).collect();
+                        let b = lex.rows[*rng.pick(&idxs)].clone();
+                        let l2 = if n > 1 { (b.left as usize + 1 + rng.below(n - 1)) % n } else { 0 };
+                        let c2 = if rng.chance(1, 2) { (b.cost + 1 + rng.below(900) as i32).min(32767) } else { (b.cost - rng.below(900) as i32).max(-32767) };
+                        shape.push(format!("user-homograph-of-system-word:{}", if c2 > b.cost { "dearer-first" } else { "cheaper-or-equal-first" }));
+                        Row::simple(&b.surface, l2 as i32, b.right, c2, rng.below(pos.len()))
+                    }
+                    2 => Row::simple(&rng.pick(&lex.rows).surface.clone(), rng.below(n) as i32, rng.below(n) as i32, rng.below(6000) as i32 - 200, rng.below(pos.len())),
+                    _ => Row::simple(&rand_word(rng, &pool, 3), rng.below(n) as i32, rng.below(n) as i32, rng.below(6000) as i32 - 200, rng.below(pos.len())),
+                };
+                let mut r = r;
+                if extreme && rng.chance(1, 6) { r.cost = *rng.pick(&[32767, -32767, 32766]); }
+                if rng.chance(1, 12) { r.cost = -32768; shape.push("user-row:cost-estimated-at-load".into()); }
+                rows.push(r);
+            }
+            let ucsv = csv_of(&rows, &pos);
+            let ub = build_user(&base, ucsv.as_bytes())?;
+            user_bins.push(ub);
+            users.push(rows);
+            user_pos.push(pos);
+        }
+    }
+    shape.push(format!("user-dictionaries:{}", nusers));
+    desc.push(format!("users:{}", nusers));
+    let dic = load(&cfg, system.clone(), user_bins.clone())?;
+    let w = World { wd, lex, matrix, users, user_pos, dic, cfg, desc, has_fallback, has_path_rewrite: false, input_kinds, system_csv: csv, system_bin: system, user_bins };
+    Ok(C2World { w, inh, shape })
 }
